@@ -50,14 +50,57 @@ pub fn reference_runs(elevs: &[u8]) -> Vec<(u8, usize)> {
     runs
 }
 
+/// How radial identities are assigned.  `Unique`: every radial differs from every other (a read
+/// identifies the write it observed).  The other patterns put *equal* radials into the input
+/// ("any sequence" includes retransmitted and repeated radials): conservation then shows in the
+/// count and in the element-wise comparison.
+#[derive(Clone, Copy, Debug, PartialEq)]
+pub enum Ident {
+    Unique,
+    /// all radials of one elevation number are equal in every field
+    PerElevation,
+    /// a radial equals its predecessor (when that has the same elevation) with probability 1/2
+    RepeatPrevious(u64),
+    /// identities drawn from a pool of three per elevation: equal radials recur, not only adjacently
+    SmallPool(u64),
+}
+
+fn identities(elevs: &[u8], ident: Ident) -> Vec<(i64, u16)> {
+    let mut out: Vec<(i64, u16)> = Vec::with_capacity(elevs.len());
+    for (i, &e) in elevs.iter().enumerate() {
+        let unique = (1_000 + i as i64, (i % 720) as u16);
+        let v = match ident {
+            Ident::Unique => unique,
+            Ident::PerElevation => (e as i64, e as u16),
+            Ident::RepeatPrevious(salt) => {
+                if i > 0 && elevs[i - 1] == e && mix(salt, i as u64) & 1 == 0 {
+                    out[i - 1]
+                } else {
+                    unique
+                }
+            }
+            Ident::SmallPool(salt) => {
+                let k = mix(salt, i as u64) % 3;
+                (e as i64 * 10 + k as i64, k as u16)
+            }
+        };
+        out.push(v);
+    }
+    out
+}
+
 fn check_grouping(ctx: &mut Ctx, elevs: &[u8], shape: u64) {
+    check_grouping_ident(ctx, elevs, Ident::Unique, shape)
+}
+
+fn check_grouping_ident(ctx: &mut Ctx, elevs: &[u8], ident: Ident, shape: u64) {
     ctx.obs.case(shape);
-    let radials: Vec<Radial> = elevs
-        .iter()
-        .enumerate()
-        .map(|(i, &e)| mk_radial(1_000 + i as i64, (i % 720) as u16, e))
-        .collect();
-    let replay = json!({"op": "from_radials", "elevations": elevs});
+    let ids = identities(elevs, ident);
+    let radials: Vec<Radial> = elevs.iter().zip(ids.iter()).map(|(&e, &(id, az))| mk_radial(id, az, e)).collect();
+    if ident != Ident::Unique {
+        ctx.obs.count("groupings_with_equal_radials", 1);
+    }
+    let replay = json!({"op": "from_radials", "elevations": elevs, "identities": format!("{:?}", ident)});
     let sweeps = match mon::catch(|| Sweep::from_radials(radials.clone())) {
         Ok(s) => s,
         Err(p) => {
@@ -164,18 +207,27 @@ fn check_grouping(ctx: &mut Ctx, elevs: &[u8], shape: u64) {
 }
 
 fn check_merge(ctx: &mut Ctx, e1: u8, az1: &[u16], e2: u8, az2: &[u16], shape: u64) {
+    check_merge_ident(ctx, e1, az1, e2, az2, false, shape)
+}
+
+/// `equal_radials`: a radial's identity is its azimuth number alone, so radials with the same
+/// azimuth number are equal in every field, within a sweep and across the two sweeps.
+fn check_merge_ident(ctx: &mut Ctx, e1: u8, az1: &[u16], e2: u8, az2: &[u16], equal_radials: bool, shape: u64) {
     ctx.obs.case(shape);
     let a: Vec<Radial> = az1
         .iter()
         .enumerate()
-        .map(|(i, &z)| mk_radial(10_000 + i as i64, z, e1))
+        .map(|(i, &z)| mk_radial(if equal_radials { z as i64 } else { 10_000 + i as i64 }, z, e1))
         .collect();
     let b: Vec<Radial> = az2
         .iter()
         .enumerate()
-        .map(|(i, &z)| mk_radial(20_000 + i as i64, z, e2))
+        .map(|(i, &z)| mk_radial(if equal_radials { z as i64 } else { 20_000 + i as i64 }, z, e2))
         .collect();
-    let replay = json!({"op": "merge", "first": {"elevation": e1, "azimuths": az1}, "second": {"elevation": e2, "azimuths": az2}});
+    if equal_radials {
+        ctx.obs.count("merges_with_equal_radials", 1);
+    }
+    let replay = json!({"op": "merge", "equal_radials": equal_radials, "first": {"elevation": e1, "azimuths": az1}, "second": {"elevation": e2, "azimuths": az2}});
     let s1 = Sweep::new(e1, a.clone());
     let s2 = Sweep::new(e2, b.clone());
     let r = match mon::catch(|| s1.merge(s2)) {
@@ -244,14 +296,21 @@ fn check_merge(ctx: &mut Ctx, e1: u8, az1: &[u16], e2: u8, az2: &[u16], shape: u
         );
         return;
     }
+    // unaltered: the merged radials are, element-wise, the stable sort of first ++ second
+    let mut want_r: Vec<&Radial> = a.iter().chain(b.iter()).collect();
+    want_r.sort_by_key(|r| r.azimuth_number());
+    if merged.radials().len() != want_r.len() || merged.radials().iter().zip(want_r.iter()).any(|(g, w)| g != *w) {
+        ctx.obs.violation("merge alters a radial", "element-wise comparison failed", replay);
+        return;
+    }
     ctx.obs.count("merges_equal_to_reference", 1);
 }
 
 pub fn run(ctx: &mut Ctx) {
-    ctx.rule = "grouping: one case per elevation sequence (every radial has a unique timestamp identity); merge: one case per ordered pair of azimuth lists; \
+    ctx.rule = "grouping: one case per elevation sequence and identity pattern (every radial unique, or equal radials adjacent / recurring / all equal per elevation); merge: one case per ordered pair of azimuth lists; \
 distinct = distinct elevation strings / azimuth-list pairs; oracle = 10-line reference run-splitter and std stable sort of first++second"
         .into();
-    ctx.exhaustive = Some("every elevation string of length 0..=8 over {1,2,3} (9,841); every pair of azimuth lists of length <= 3 over {1,2,3} (1,600 pairs) for equal and unequal elevations".into());
+    ctx.exhaustive = Some("every elevation string of length 0..=8 over {1,2,3} (9,841) under three identity patterns; every pair of azimuth lists of length <= 3 over {1,2,3} (1,600 pairs) for equal and unequal elevations".into());
     ctx.floor_evaluations = 10_000;
     let mut rng = Rng::derive(ctx.seed, 9, 0);
 
@@ -282,6 +341,8 @@ distinct = distinct elevation strings / azimuth-list pairs; oracle = 10-line ref
                 continue;
             }
             check_grouping(ctx, &elevs, mix(1, mix(len as u64, code as u64)));
+            check_grouping_ident(ctx, &elevs, Ident::PerElevation, mix(11, mix(len as u64, code as u64)));
+            check_grouping_ident(ctx, &elevs, Ident::RepeatPrevious(code as u64), mix(12, mix(len as u64, code as u64)));
             if ctx.obs.want_sample() && len == 4 && code % 20 == 7 {
                 ctx.obs.sample(json!({"op": "from_radials", "elevations": elevs, "expected_runs": reference_runs(&elevs)}));
             }
@@ -307,6 +368,7 @@ distinct = distinct elevation strings / azimuth-list pairs; oracle = 10-line ref
     for (i, a) in lists.iter().enumerate() {
         for (j, b) in lists.iter().enumerate() {
             check_merge(ctx, 3, a, 3, b, mix(2, mix(i as u64, j as u64)));
+            check_merge_ident(ctx, 3, a, 3, b, true, mix(22, mix(i as u64, j as u64)));
             check_merge(ctx, 3, a, 4, b, mix(3, mix(i as u64, j as u64)));
             if ctx.obs.samples.len() < 4 && i == 17 && j == 5 {
                 ctx.obs.sample(json!({"op": "merge", "first": a, "second": b}));
@@ -315,7 +377,7 @@ distinct = distinct elevation strings / azimuth-list pairs; oracle = 10-line ref
     }
 
     // random grouping
-    let n = ctx.tier.pick(3_000, 400_000);
+    let n = ctx.tier.pick(20_000, 400_000);
     for i in 0..n {
         if ctx.out_of_time() {
             break;
@@ -359,11 +421,16 @@ distinct = distinct elevation strings / azimuth-list pairs; oracle = 10-line ref
                 mix(len as u64, runs.last().map(|r| r.1).unwrap_or(0) as u64),
             ),
         );
-        check_grouping(ctx, &elevs, mix(shape, i));
+        let ident = match i % 4 {
+            0 => Ident::RepeatPrevious(i),
+            1 => Ident::SmallPool(i),
+            _ => Ident::Unique,
+        };
+        check_grouping_ident(ctx, &elevs, ident, mix(shape, i));
     }
 
     // random merge
-    let n = ctx.tier.pick(3_000, 400_000);
+    let n = ctx.tier.pick(20_000, 400_000);
     for i in 0..n {
         if ctx.out_of_time() {
             break;
@@ -375,6 +442,6 @@ distinct = distinct elevation strings / azimuth-list pairs; oracle = 10-line ref
         let b: Vec<u16> = (0..lb).map(|_| rng.below(span + 1) as u16).collect();
         let e1 = rng.u8();
         let e2 = if rng.chance(3, 4) { e1 } else { rng.u8() };
-        check_merge(ctx, e1, &a, e2, &b, mix(5, i));
+        check_merge_ident(ctx, e1, &a, e2, &b, i % 4 == 0, mix(5, i));
     }
 }
